@@ -33,7 +33,8 @@ TECHNIQUE = (
 LEVEL_TEXT = (
     "Serial: 3 networks x 4 method sets x 5 objectives x all 16 subsets of "
     "{simulated_annealing_opts, slicing_opts, slicing_reconf_opts, "
-    "reconf_opts} x 2 sampling libraries. Pool: for 12 configurations every "
+    "reconf_opts} x 2 sampling libraries. Pool: for 18 configurations (6 of them with early termination by "
+    "max_time under a virtual clock) every "
     "one of the 600 (quick) / 3000 (thorough) completion orders of the "
     "trials is executed through the library's own future-polling code. In "
     "every run: tree complete and of the query, best == min(scores) and "
